@@ -37,6 +37,10 @@ class Ctx:
         self.log_lines = []
         os.makedirs(WORK, exist_ok=True)
         os.makedirs(SCRATCH, exist_ok=True)
+        try:
+            os.chmod(SCRATCH, 0o1777)
+        except OSError:
+            pass
 
     def note(self, msg):
         print(f"[{self.id}] {msg}", flush=True)
@@ -221,7 +225,7 @@ def finish(ctx, rule, exhaustive=None, extra_cov=None):
     ev = {"property_id": ctx.id, "tier": ctx.tier, "seed": ctx.seed, "level": ctx.level, "coverage": cov,
           "assumptions": ctx.assumptions, "wall_s": round(time.time() - ctx.t0, 1),
           "violations": len(real), "known_findings_reproduced": sorted(seen_known)}
-    if not getattr(ctx, "replay_mode", False):   # a --replay run is not evidence
+    if not getattr(ctx, "replay_mode", False) and not os.environ.get("VERIF_NO_EVIDENCE"):   # a --replay run is not evidence
         os.makedirs(os.path.join(ROOT, "evidence"), exist_ok=True)
         json.dump(ev, open(os.path.join(ROOT, "evidence", f"{ctx.id}.json"), "w"), indent=1)
     ctx.note(f"done in {ev['wall_s']}s: {len(real)} violation(s), {len(seen_known)} known finding(s)")
